@@ -66,12 +66,21 @@ class G:
         self.adv_next = {'c': 2, 's': 1}       # next stream id the harness peer would open towards x
         self.lost = False
         self.stop = False
+        self.held = {}
+        self.hold = False                      # steps that leave their output in the buffer: only after the handshake
         self.unacked = {'c': {}, 's': {}}      # bytes received and not yet acknowledged, per stream (an input heuristic only)
 
     # ------------------------------------------------------------ plumbing
     def do(self, s):
-        if s['a'] == 'call' and s['c'].get('op') in ('hdr', 'push'):
-            s = dict(s, c=dict(s['c'], sz=True))      # observe the sizes of the frames that carry the header block
+        if s['a'] in ('call', 'recv') and self.rng.random() < ({'close': 0.3}.get(self.flavour, 0.05) if self.hold else 0):
+            # the application does not take the output after this step: it stays in the connection's buffer (C19: a received
+            # GOAWAY discards it; C02/C21: a later data_to_send returns all of it, in order)
+            s = dict(s, nf=True)
+        held = self.held.get(s['x'], False)
+        self.held[s['x']] = bool(s.get('nf'))
+        if s['a'] == 'call' and s['c'].get('op') in ('hdr', 'push') and not s.get('nf') and not held:
+            # observe the sizes of the frames that carry the header block (when the step's output is this step's alone)
+            s = dict(s, c=dict(s['c'], sz=True))
         obs = self.sess.step(replay.resolve(s, self.cat))
         s = dict(s)
         if self.chunk_seed is not None and s['a'] in ('recv', 'dlv') and obs['r']['c'] != 'ok':
@@ -813,6 +822,7 @@ class G:
     def run(self, length):
         r = self.rng
         self.handshake()
+        self.hold = True
         while len(self.steps) < length:
             if self.pair:
                 x = r.choice('cs')
